@@ -43,6 +43,10 @@ func (f fileCase) bytes() []byte {
 func (f fileCase) String() string {
 	ds := ""
 	for i, d := range f.datums {
+		if i >= 4 {
+			ds += fmt.Sprintf("; … (%d records)", len(f.datums))
+			break
+		}
 		if i > 0 {
 			ds += "; "
 		}
